@@ -99,7 +99,9 @@ mkrsa(const json_t *jwk)
     if (!key)
         return NULL;
 
-    if (RSA_generate_key_ex(key, (int) bits, bn, NULL) <= 0) {
+    /* OpenSSL makes a modulus of 2 * (bits / 2) bits: one short if bits is odd. */
+    if (RSA_generate_key_ex(key, (int) bits, bn, NULL) <= 0 ||
+        RSA_bits(key) != bits) {
         RSA_free(key);
         key = NULL;
     }
